@@ -14,6 +14,7 @@ import glob
 import os
 import sys
 import textwrap
+from typing import TypeVar
 
 from vp import harness  # noqa: F401  (asserts that pyanalyze is the tree under test)
 from vp import valuegen as vg
@@ -47,27 +48,36 @@ RULE = (
     "test-suite programs is one contract evaluation."
 )
 ASSUMPTIONS = [
-    "equality is pyanalyze's own ==; 'members of v' = list(flatten_values(v)); membership is list membership under ==",
-    "AnyValue(AnySource.unreachable) is pyanalyze's marker for 'no value' (value.py _is_unreachable): the members law "
-    "treats it like Never (it may be dropped when a reachable member exists); all other laws apply to it unchanged",
+    "equality is pyanalyze's own == as Python containers apply it (identical objects are equal - a KnownValue of an "
+    "object whose __eq__ raises is not == itself); 'members of v' = list(flatten_values(v)); membership is list "
+    "membership under that ==",
+    "AnyValue(AnySource.unreachable), bare or annotated, is pyanalyze's marker for 'no value' (value.py "
+    "_is_unreachable; unite_values drops it beside reachable members and returns the bare marker when nothing else "
+    "is left): it is treated as a second spelling of Never - the two sides of a law may differ in how 'no value' is "
+    "spelled (Never / marker / Annotated[Never|marker, ...]), the members law ignores markers, 'accepts' is not "
+    "demanded for a marker operand; generated raw unions never contain Never or the marker as a member",
     "'accepts each operand' is only demanded for operands that are assignable to themselves "
     "(reflexivity of is_assignable is C04's subject); skipped cases are counted in accepts_skipped_not_reflexive",
     "generated values are in the normal form pyanalyze's own constructors produce: raw unions have >=2 pairwise "
-    "different member specs, Annotated is not nested, Annotated metadata is hashable (docs/typesystem.md)",
+    "different member specs, Annotated is not nested, Annotated metadata is hashable (docs/typesystem.md), "
+    "TypeGuard/TypeIs extensions only as Annotated[bool, <one guard>] (annotations.py), *args/**kwargs of a "
+    "CallableValue are not tuple-/TypedDict-annotated (Signature.make would expand them)",
     "which type variables occur in a generated value is known by construction (vp.valuegen.spec_typevars), "
     "not from walk_values()",
     "Checker() with default options is the CanAssignContext",
 ]
 FLOORS = {
     "quick": {
-        "distinct_nontrivial": 90000, "evaluations": 110000, "ternary_cases": 100000, "binary_cases": 2000,
-        "unary_cases": 40, "law_evaluations": 1000000, "random_cases": 8000, "subst_changed": 5000,
-        "eq_pairs_hash_checked": 100000, "insitu_contract_evaluations": 1500, "insitu_programs": 50,
+        "distinct_nontrivial": 140000, "evaluations": 140000, "ternary_cases": 140000, "binary_cases": 33000,
+        "unary_cases": 30000, "law_evaluations": 2600000, "random_cases": 10000, "subst_changed": 8000,
+        "subst_identity_checked": 50000, "subst_commutes_checked": 50000, "eq_pairs_hash_checked": 600000,
+        "accepts_true": 200000, "insitu_contract_evaluations": 1500, "insitu_programs": 55,
     },
     "thorough": {
-        "distinct_nontrivial": 450000, "evaluations": 550000, "ternary_cases": 500000, "binary_cases": 5000,
-        "unary_cases": 60, "law_evaluations": 5000000, "random_cases": 40000, "subst_changed": 20000,
-        "eq_pairs_hash_checked": 500000, "insitu_contract_evaluations": 6000, "insitu_programs": 200,
+        "distinct_nontrivial": 550000, "evaluations": 550000, "ternary_cases": 550000, "binary_cases": 150000,
+        "unary_cases": 150000, "law_evaluations": 10000000, "random_cases": 50000, "subst_changed": 40000,
+        "subst_identity_checked": 250000, "subst_commutes_checked": 250000, "eq_pairs_hash_checked": 2500000,
+        "accepts_true": 800000, "insitu_contract_evaluations": 6000, "insitu_programs": 220,
     },
 }
 NSHARDS = 16
@@ -89,6 +99,12 @@ def checker():
 # small helpers on real values
 
 
+def is_unreachable_marker(v) -> bool:
+    while isinstance(v, AnnotatedValue):
+        v = v.value
+    return isinstance(v, AnyValue) and v.source is AnySource.unreachable
+
+
 def safe_hash(x):
     try:
         return hash(x)
@@ -97,10 +113,25 @@ def safe_hash(x):
 
 
 def eq(x, y) -> bool:
+    """== as containers apply it (list membership, tuple comparison, dict lookup): identity, else __eq__."""
+    if x is y:
+        return True
     try:
         return bool(x == y)
     except Exception:  # noqa: BLE001
         return False
+
+
+def is_bottom(v) -> bool:
+    """Never, or pyanalyze's Any[unreachable] marker (bare or annotated) - see ASSUMPTIONS."""
+    while isinstance(v, AnnotatedValue):
+        v = v.value
+    return (isinstance(v, MultiValuedValue) and not v.vals) or is_unreachable_marker(v)
+
+
+def eqm(x, y) -> bool:
+    """== of pyanalyze, modulo the spelling of 'no value'."""
+    return eq(x, y) or (is_bottom(x) and is_bottom(y))
 
 
 def members(v) -> list:
@@ -123,12 +154,6 @@ def multiset_eq(xs, ys) -> bool:
     return not ys
 
 
-def is_unreachable_marker(v) -> bool:
-    while isinstance(v, AnnotatedValue):
-        v = v.value
-    return isinstance(v, AnyValue) and v.source is AnySource.unreachable
-
-
 _SKIP_FIELDS = {"typevars_of_params", "all_typevars"}
 
 
@@ -147,15 +172,61 @@ def neq_bad(u, v) -> bool:
 
 
 def hash_bad(u, v) -> bool:
+    """Do u and v contribute different hashes?  Unhashable builtin containers are judged by their items."""
     hu, hv = safe_hash(u), safe_hash(v)
-    return hu is None or hv is None or hu != hv
+    if hu is not None and hv is not None:
+        return hu != hv
+    if isinstance(u, dict) and isinstance(v, dict):
+        return list(u) != list(v) or any(hash_bad(u[k], v[k]) for k in u)
+    if isinstance(u, (list, tuple)) and isinstance(v, (list, tuple)):
+        return len(u) != len(v) or any(hash_bad(a, b) for a, b in zip(u, v))
+    return True
+
+
+def non_normal(v):
+    """Why a union is not in the form unite_values produces (None if it is)."""
+    if not isinstance(v, MultiValuedValue):
+        return None
+    if len(v.vals) == 1:
+        return "single-member"
+    if any(is_union(m) for m in v.vals):
+        return "nested"
+    if len(v.vals) > 1 and any(is_unreachable_marker(m) for m in v.vals):
+        return "unreachable-marker-member"
+    if has_dups(v.vals):
+        return "duplicate-members"
+    return None
+
+
+def _annotated_union(v) -> bool:
+    return isinstance(v, AnnotatedValue) and isinstance(v.value, MultiValuedValue)
+
+
+def _annotated_not_normal(v) -> bool:
+    """An Annotated that annotate_value() would not have built: nested Annotated, or repeated metadata."""
+    if isinstance(v, MultiValuedValue):
+        return any(_annotated_not_normal(m) for m in v.vals)
+    if not isinstance(v, AnnotatedValue):
+        return False
+    if isinstance(v.value, AnnotatedValue):
+        return True
+    md = v.metadata
+    return any(eq(md[i], md[j]) for i in range(len(md)) for j in range(i + 1, len(md)))
 
 
 def diff_reason(x, y, bad, owner: str = "value", depth: int = 0) -> str:
     """Where do x and y part?  Follows the components for which bad(cx, cy) holds down to the innermost one and
-    names it structurally (class.field + kind) — the mechanism, never the values."""
+    names it structurally (class.field + kind) - the mechanism, never the values."""
     if depth > 40:
         return owner + ":deep"
+    if isinstance(x, Value) and isinstance(y, Value):
+        if _annotated_union(x) != _annotated_union(y):
+            return "annotated-union-vs-union-of-annotated"
+        if _annotated_not_normal(x) != _annotated_not_normal(y):
+            return "annotated-not-normalised"
+        nx, ny = non_normal(x), non_normal(y)
+        if (nx or ny) and (nx != ny or len(x.vals) != len(y.vals)):
+            return "union-not-normalised"
     if isinstance(x, MultiValuedValue) and isinstance(y, MultiValuedValue):
         if (
             len(x.vals) == len(y.vals)
@@ -163,20 +234,14 @@ def diff_reason(x, y, bad, owner: str = "value", depth: int = 0) -> str:
             and multiset_eq(x.vals, y.vals)
         ):
             return "MultiValuedValue.vals:order"
-        if has_dups(x.vals) != has_dups(y.vals):
-            return "union-not-normalised:duplicate-members"
         if len(x.vals) != len(y.vals):
             return "MultiValuedValue.vals:length"
     if type(x) is not type(y):
-        for u, v in ((x, y), (y, x)):
-            if isinstance(u, MultiValuedValue) and not isinstance(v, MultiValuedValue):
-                if isinstance(v, AnnotatedValue) and isinstance(v.value, MultiValuedValue):
-                    return "annotated-union-vs-union-of-annotated"
-                if len(u.vals) < 2:
-                    return "union-not-normalised:single-member"
-                if has_dups(u.vals):
-                    return "union-not-normalised:duplicate-members"
+        if _fields(x) is None and _fields(y) is None:
+            return owner  # two plain objects held in the same field
         return "class:" + "/".join(sorted([type(x).__name__, type(y).__name__]))
+    if isinstance(x, KnownValue) and bad is hash_bad and safe_hash(x.val) is None:
+        return "KnownValue.val:unhashable-object"
     fx = _fields(x)
     if fx is not None:
         fy = dict(_fields(y))
@@ -215,6 +280,8 @@ def find_typevar_holder(root, domain) -> str:
             return None
         seen.add(id(obj))
         if isinstance(obj, TypeVarValue) and obj.typevar in domain:
+            return owner
+        if isinstance(obj, TypeVar) and obj in domain:  # e.g. held by a CustomCheck
             return owner
         fs = _fields(obj)
         if fs is not None:
@@ -275,28 +342,34 @@ def check_eq_hash(x, y, rec, st, src: str, ms=None) -> None:
     st.count("eq_pairs_hash_checked")
     st.count("law_evaluations")
     if hx != hy:
-        rec("eq-hash", diff_reason(x, y, hash_bad), f"[{src}] {x} == {y} but their hashes differ", ms)
+        rec("eq-hash", diff_reason(x, y, hash_bad), lambda: f"[{src}] {x} == {y} but their hashes differ", ms)
 
 
 def check_result_shape(r, ops, rec, st, via: str) -> None:
     """no nested union; equal alternatives merged; members exactly the operands' members; accepts operands."""
     st.count("law_evaluations", 3)
+    st.count("results_inspected")
     vals = r.vals if isinstance(r, MultiValuedValue) else None
     if vals is not None:
         for v in vals:
             if is_union(v):
-                rec("no-nest", f"{type(v).__name__} inside .vals via {via}", f"{r!r} has a union among its members")
+                rec("no-nest", f"{type(v).__name__} inside .vals", f"{via}: {r!r} has a union among its members")
                 break
         done = False
         for i in range(len(vals)):
             for j in range(i + 1, len(vals)):
                 if eq(vals[i], vals[j]):
-                    bad = hash_bad if hash_bad(vals[i], vals[j]) else neq_bad
-                    rec(
-                        "merged",
-                        diff_reason(vals[i], vals[j], bad) if bad is hash_bad else "equal-members-same-hash",
-                        f"{via}: result {r} keeps two equal alternatives {vals[i]} and {vals[j]}",
-                    )
+                    hi, hj = safe_hash(vals[i]), safe_hash(vals[j])
+                    u, v = vals[i], vals[j]
+                    text = lambda: f"{via}: result {r} keeps two equal alternatives {u} and {v}"  # noqa: E731
+                    if hi is None or hj is None:
+                        rec("merged", "unhashable-members-not-deduplicated", text)
+                    elif hi != hj:
+                        # the statement's own causal chain: equal values must hash equal *so that* they merge
+                        st.count("unmerged_because_hashes_differ")
+                        rec("eq-hash", diff_reason(u, v, hash_bad), lambda: text() + " (equal, different hashes)")
+                    else:
+                        rec("merged", "equal-members-same-hash", text)
                     done = True
                     break
             if done:
@@ -307,12 +380,14 @@ def check_result_shape(r, ops, rec, st, via: str) -> None:
         for m in members(op):
             if not any(eq(m, e) for e in expected):
                 expected.append(m)
-    if any(not is_unreachable_marker(e) for e in expected):
-        dropped = [e for e in expected if is_unreachable_marker(e)]
-        if dropped:
-            st.count("members_unreachable_marker_dropped")
-            expected = [e for e in expected if not is_unreachable_marker(e)]
-    got = members(r)
+    had_marker = any(is_unreachable_marker(e) for e in expected)
+    if had_marker:
+        st.count("members_unreachable_marker_operand")
+    expected = [e for e in expected if not is_unreachable_marker(e)]
+    got_all = members(r)
+    got = [g for g in got_all if not is_unreachable_marker(g)]
+    if len(got) != len(got_all) and not had_marker:
+        rec("members", "extra-in-result:unreachable-marker", f"{via}: {r} contains Any[unreachable] but no operand does")
     for g in got:
         if not any(eq(g, e) for e in expected):
             rec("members", f"extra-in-result:{type(g).__name__}", f"{via}: {g} is a member of {r} but of no operand")
@@ -323,9 +398,35 @@ def check_result_shape(r, ops, rec, st, via: str) -> None:
             break
 
 
+_EXT_FAMILY = {"TypeGuardExtension": "return-guard-extension", "TypeIsExtension": "return-guard-extension"}
+
+
+def _cls(v, rejected=None, ctx=None) -> str:
+    """Class of a value for a mechanism key; for an Annotated result, which kind of metadata does the rejecting."""
+    if isinstance(v, MultiValuedValue) and not v.vals:
+        return "Never"
+    if isinstance(v, AnnotatedValue):
+        if rejected is not None:
+            names = set()
+            try:
+                if v.value.is_assignable(rejected, ctx):
+                    for ext in v.get_metadata_of_type(pv.Extension):
+                        if not isinstance(ext.can_assign(rejected, ctx), dict):
+                            names.add(_EXT_FAMILY.get(type(ext).__name__, type(ext).__name__))
+            except Exception:  # noqa: BLE001
+                pass
+            if names:
+                return f"Annotated[{'+'.join(sorted(names))}]"
+        return f"Annotated({type(v.value).__name__})"
+    return type(v).__name__
+
+
 def check_accepts(r, ops, rec, st, via: str) -> None:
     ctx = checker()
     for op in ops:
+        if is_unreachable_marker(op):
+            st.count("accepts_skipped_unreachable_marker")
+            continue
         st.count("law_evaluations")
         try:
             if r.is_assignable(op, ctx):
@@ -339,12 +440,7 @@ def check_accepts(r, ops, rec, st, via: str) -> None:
             st.count("accepts_skipped_not_reflexive")
             st.histo("not_reflexive_operand", type(op).__name__)
             continue
-        inner = op.value if isinstance(op, AnnotatedValue) else op
-        rec(
-            "accepts",
-            f"{type(op).__name__}" + (f"({type(inner).__name__})" if inner is not op else "") + f" rejected by {type(r).__name__}",
-            f"{via}: result {r} does not accept operand {op}",
-        )
+        rec("accepts", f"{_cls(op)} rejected by {_cls(r, op, ctx)}", f"{via}: result {r} does not accept operand {op}")
 
 
 def laws_unary(a, spec, maps, rec, st) -> None:
@@ -352,12 +448,23 @@ def laws_unary(a, spec, maps, rec, st) -> None:
     u = pv.unite_values
     aa = a | a
     st.count("law_evaluations", 4)
-    if not eq(aa, a):
+    # a raw union whose members are == under the tree's own equality (two different specs may build equal values)
+    # is not a value unite_values could have produced: a|a == a cannot be demanded of it
+    core = a.value if isinstance(a, AnnotatedValue) else a
+    normal = non_normal(core) is None
+    if not normal:
+        st.count("operand_union_not_in_normal_form")
+        st.histo("operand_union_not_in_normal_form", non_normal(core))
+    if not normal:
+        pass
+    elif not eqm(aa, a):
         rec("idempotent", diff_reason(aa, a, neq_bad), f"a|a = {aa!r} != a = {a!r}")
     else:
         check_eq_hash(aa, a, rec, st, "a|a, a")
     for r, how in ((a | NO_RETURN_VALUE, "a|Never"), (NO_RETURN_VALUE | a, "Never|a"), (u(a), "unite_values(a)")):
-        if not eq(r, a):
+        if not normal:
+            continue
+        if not eqm(r, a):
             rec("never-identity", diff_reason(r, a, neq_bad), f"{how} = {r!r} != a = {a!r}")
         else:
             check_eq_hash(r, a, rec, st, how)
@@ -368,7 +475,7 @@ def laws_unary(a, spec, maps, rec, st) -> None:
         st.count("law_evaluations")
         for v in a.vals:
             if is_union(v):
-                rec("no-nest", f"{type(v).__name__} inside .vals via raw-constructor", f"{a!r}")
+                rec("no-nest", f"{type(v).__name__} inside .vals", f"raw constructor: {a!r} has a union among its members")
                 break
     # a structurally identical value built separately must be equal and hash equal
     twin = vg.Builder().build(spec)
@@ -389,19 +496,77 @@ def laws_unary(a, spec, maps, rec, st) -> None:
             rec("subst-raises", f"{type(e).__name__} in {type(a).__name__}", f"subst({a}, {m}) raised {e!r}", mspec)
             continue
         dom = {name for name in mspec}
-        if not (tvs & dom):
+        if not (tvs & dom) and normal:
             st.count("subst_identity_checked")
-            if not eq(r, a):
+            if not eqm(r, a):
                 rec("subst-identity", diff_reason(r, a, neq_bad), f"subst({a!r}, m) = {r!r} although no variable of m occurs", mspec)
             else:
                 check_eq_hash(r, a, rec, st, "subst(a,m), a", mspec)
-        else:
+        elif tvs & dom:
             st.count("subst_changed")
         check_subst_complete(r, m, rec, st, f"subst({a}, m)", mspec)
 
 
+def _has_leftover(obj, m) -> bool:
+    if find_typevar_holder(obj, m) is not None:
+        return True
+    walk = getattr(obj, "walk_values", None)
+    if walk is not None:
+        try:
+            return any(isinstance(w, TypeVarValue) and w.typevar in m for w in walk())
+        except Exception:  # noqa: BLE001
+            return False
+    return False
+
+
+def _substitutable_children(obj, depth=0):
+    """Nearest sub-objects (through tuples/dicts/plain dataclasses) that have their own substitute_typevars."""
+    out = []
+
+    def visit(c, d):
+        if d > 6:
+            return
+        if hasattr(c, "substitute_typevars") and not isinstance(c, type):
+            out.append(c)
+        elif isinstance(c, (tuple, list)):
+            for x in c:
+                visit(x, d + 1)
+        elif isinstance(c, dict):
+            for x in c.values():
+                visit(x, d + 1)
+        else:
+            fs = _fields(c)
+            if fs is not None:
+                for _, x in fs:
+                    visit(x, d + 1)
+
+    fs = _fields(obj)
+    if fs is not None:
+        for _, c in fs:
+            visit(c, 0)
+    return out
+
+
+def subst_culprit(node, m, depth: int = 0) -> str:
+    """The class whose substitute_typevars leaves the variable: the deepest node that still mentions it after
+    being substituted (again) although none of its substitutable children does."""
+    if depth > 30:
+        return type(node).__name__
+    for c in _substitutable_children(node):
+        if isinstance(c, TypeVarValue) or not _has_leftover(c, m):
+            continue
+        try:
+            again = c.substitute_typevars(m)
+        except Exception:  # noqa: BLE001
+            return type(c).__name__
+        if _has_leftover(again, m):
+            return subst_culprit(c, m, depth + 1)
+    return type(node).__name__
+
+
 def check_subst_complete(r, m, rec, st, what: str, ms=None) -> None:
     leftover = None
+    st.count("subst_complete_checked")
     try:
         for w in r.walk_values():
             if isinstance(w, TypeVarValue) and w.typevar in m:
@@ -410,11 +575,10 @@ def check_subst_complete(r, m, rec, st, what: str, ms=None) -> None:
     except Exception as e:  # noqa: BLE001
         rec("walk-raises", type(e).__name__, f"walk_values of {what} raised {e!r}", ms)
         return
-    holder = find_typevar_holder(r, m)
-    if leftover is not None or holder is not None:
+    if leftover is not None or find_typevar_holder(r, m) is not None:
         rec(
             "subst-complete",
-            f"left in {holder}" if holder else f"seen only by walk_values of {type(r).__name__}",
+            f"not substituted by {subst_culprit(r, m)}",
             f"{what} = {r} still mentions a substituted variable",
             ms,
         )
@@ -425,7 +589,7 @@ def laws_binary(a, b, maps, rec, st) -> None:
     st.count("law_evaluations", 2)
     ab = a | b
     ba = b | a
-    if not eq(ab, ba):
+    if not eqm(ab, ba):
         rec("commutative", diff_reason(ab, ba, neq_bad), f"a|b = {ab!r} != b|a = {ba!r}")
     else:
         check_eq_hash(ab, ba, rec, st, "a|b, b|a")
@@ -434,13 +598,14 @@ def laws_binary(a, b, maps, rec, st) -> None:
     check_accepts(ab, (a, b), rec, st, "a|b")
     for mspec, m in maps:
         st.count("law_evaluations")
+        st.count("subst_commutes_checked")
         try:
             lhs = ab.substitute_typevars(m)
             rhs = a.substitute_typevars(m) | b.substitute_typevars(m)
         except Exception as e:  # noqa: BLE001
             rec("subst-raises", f"{type(e).__name__} in union", f"subst({ab}, {m}) raised {e!r}", mspec)
             continue
-        if not eq(lhs, rhs):
+        if not eqm(lhs, rhs):
             rec(
                 "subst-commutes-with-unite",
                 diff_reason(lhs, rhs, neq_bad),
@@ -462,11 +627,11 @@ def laws_ternary(a, b, c, rec, st, ab=None, bc=None, accepts: bool = True) -> No
     left = ab | c
     right = a | bc
     flat = pv.unite_values(a, b, c)
-    if not eq(left, right):
+    if not eqm(left, right):
         rec("associative", diff_reason(left, right, neq_bad), f"(a|b)|c = {left!r} != a|(b|c) = {right!r}")
     else:
         check_eq_hash(left, right, rec, st, "(a|b)|c, a|(b|c)")
-    if not eq(left, flat):
+    if not eqm(left, flat):
         rec("associative", "nary:" + diff_reason(left, flat, neq_bad), f"(a|b)|c = {left!r} != unite_values(a,b,c) = {flat!r}")
     else:
         check_eq_hash(left, flat, rec, st, "(a|b)|c, unite_values(a,b,c)")
@@ -490,7 +655,7 @@ def evaluate(ops, mapspecs):
     st = Stats()
 
     def rec(law, reason, what, ms=None):
-        out.append((law, reason, what))
+        out.append((law, reason, what() if callable(what) else what))
 
     if len(vals) == 1:
         laws_unary(vals[0], ops[0], maps, rec, st)
@@ -504,8 +669,10 @@ def evaluate(ops, mapspecs):
 ATOMS = [["typed", "int"], ["typed", "str"], ["known", "1"], ["known", "None"]]
 
 
-def _variants(spec):
-    """Strictly smaller candidate replacements for one operand."""
+def _variants(spec, deep: int = 3):
+    """Strictly smaller candidate replacements for one operand: a sub-value, an atom, the same constructor with one
+    element dropped, or the same constructor with one sub-value replaced by one of *its* variants."""
+    size = vg.spec_size(spec)
     out = list(vg.children(spec))
     if spec[0] == "union" and len(spec[1]) > 2:
         for i in range(len(spec[1])):
@@ -516,13 +683,34 @@ def _variants(spec):
     if spec[0] == "seq" and len(spec[2]) > 1:
         for i in range(len(spec[2])):
             out.append(["seq", spec[1], spec[2][:i] + spec[2][i + 1:]])
-    size = vg.spec_size(spec)
+    if spec[0] == "dict" and len(spec[1]) > 1:
+        for i in range(len(spec[1])):
+            out.append(["dict", spec[1][:i] + spec[1][i + 1:]])
+    if spec[0] == "callable" and spec[1]:
+        out.append(["callable", [], spec[2], spec[3]])
+    if spec[0] == "typeddict" and (len(spec[1]) > 1 or spec[2] is not None):
+        for k in spec[1]:
+            out.append(["typeddict", {kk: v for kk, v in spec[1].items() if kk != k}, spec[2], spec[3]])
+        out.append(["typeddict", spec[1], None, False])
     if size > 1:
         out.extend(ATOMS)
-    return [s for s in out if vg.spec_size(s) < size or (vg.spec_size(s) == size == 1 and False)]
+    if deep > 0:
+        kids = vg.children(spec)
+        for i, kid in enumerate(kids):
+            if vg.spec_size(kid) > 1:
+                for v in _variants(kid, deep - 1):
+                    out.append(vg.with_children(spec, kids[:i] + [v] + kids[i + 1:]))
+    seen, res = set(), []
+    for s in out:
+        r = repr(s)
+        if r not in seen and vg.spec_size(s) < size:
+            seen.add(r)
+            res.append(s)
+    res.sort(key=vg.spec_size)
+    return res
 
 
-def minimise(ops, mapspec, law, reason, budget: int = 120):
+def minimise(ops, mapspec, law, reason, budget: int = 400):
     """Greedy structural shrinking that keeps the same (law, reason)."""
     ops = [s for s in ops]
     maps = [mapspec] if mapspec else []
@@ -588,15 +776,17 @@ class Recorder:
         key = f"{law}|{reason}"
         n = self.per_key.get(key, 0)
         self.per_key[key] = n + 1
+        if n >= 40:
+            self.ctx.violation_counts[key] = self.ctx.violation_counts.get(key, 0) + 1
+            return
+        if callable(what):
+            what = what()
         if n < self.MINIMISE_PER_KEY:
             ops, mapspec = minimise(ops, mapspec, law, reason)
             for l, r, w in evaluate(ops, [mapspec] if mapspec else []):
                 if l == law and r == reason:
                     what = w
                     break
-        elif n >= 40:
-            self.ctx.violation_counts[key] = self.ctx.violation_counts.get(key, 0) + 1
-            return
         witness = {
             "kind": "laws", "law": law, "key": key, "ops": ops, "map": mapspec,
             "expr": [vg.to_expr(s) for s in ops] + ([vg.map_expr(mapspec)] if mapspec else []),
@@ -660,7 +850,7 @@ class UniteContract:
         st.histo("insitu_result_class", type(result).__name__)
 
         def rec(law, reason, what, ms=None):
-            self.events.append((law, reason, what))
+            self.events.append((law, reason, what() if callable(what) else what))
 
         sub = Stats()
         check_result_shape(result, values, rec, sub, "unite_values in situ")
@@ -745,7 +935,8 @@ def insitu_phase(ctx) -> None:
             ctx.count("insitu_programs_reaching_unite")
         seen = set()
         for law, reason, what in events:
-            key = f"insitu|{law}|{reason}"
+            key = f"{law}|{reason}"
+            ctx.histo("insitu_violations", key)
             if key in seen:
                 ctx.violation_counts[key] = ctx.violation_counts.get(key, 0) + 1
                 continue
@@ -772,7 +963,7 @@ def shard(ctx) -> None:
     import random
 
     rng_pool = random.Random(f"C14-pool/{ctx.seed}")  # the pool is the same in every shard of a run
-    n_pool = ctx.pick(60, 100)
+    n_pool = ctx.pick(64, 100)
     specs = vg.pool_specs(rng_pool, n_pool, depth=2)
     builder = vg.Builder()
     vals = [builder.build(s) for s in specs]
@@ -869,6 +1060,17 @@ def shard(ctx) -> None:
     if ops is not None and ctx.shard == 1 % ctx.nshards:
         ctx.sample({"random_case": [vg.to_expr(s) for s in ops]})
 
+    c = ctx.counters
+    for law, n in {
+        "idempotent": c.get("unary_cases", 0), "never-identity": 3 * c.get("unary_cases", 0),
+        "commutative": c.get("binary_cases", 0), "associative": 2 * c.get("ternary_cases", 0),
+        "no-nest+merged+members (results inspected)": c.get("results_inspected", 0),
+        "accepts": c.get("accepts_true", 0) + c.get("accepts_skipped_not_reflexive", 0),
+        "eq-hash": c.get("eq_pairs_hash_checked", 0), "subst-identity": c.get("subst_identity_checked", 0),
+        "subst-complete": c.get("subst_complete_checked", 0), "subst-commutes-with-unite": c.get("subst_commutes_checked", 0),
+    }.items():
+        ctx.histo("law_evaluations_by_law", law, n)
+
     # ---- in-situ contract over real programs
     insitu_phase(ctx)
 
@@ -880,7 +1082,7 @@ def shard(ctx) -> None:
 def replay(witness):
     if witness.get("kind") == "insitu":
         events = run_insitu(witness["source"]) or []
-        keys = [(f"insitu|{law}|{reason}", what) for law, reason, what in events]
+        keys = [(f"{law}|{reason}", what) for law, reason, what in events]
         for k, what in keys:
             if k == witness.get("key"):
                 return k, what
